@@ -5,6 +5,7 @@ import (
 	"go/types"
 	"regexp"
 	"sort"
+	"strconv"
 	"strings"
 
 	"golang.org/x/tools/go/ssa"
@@ -553,7 +554,7 @@ func c06R5(p *core.Prog, r *core.Report) {
 
 func c06R6(p *core.Prog, r *core.Report) {
 	const rule = "C06/R6"
-	r.Rule(rule, "an update/re-lock of a hold in the long-wait table moves its entry (RemoveLongExpried(old) + Add*Expried + refCount++) unless the deadline is unchanged", 4)
+	r.Rule(rule, "an update/re-lock of a hold in the long-wait table moves its entry (RemoveLongExpried(deadline read before the update) + Add*Expried + refCount++) unless the deadline is unchanged", 4)
 	fn := mustFunc(p, r, "server.(*LockDB).Lock")
 	if fn == nil {
 		return
@@ -572,16 +573,29 @@ func c06R6(p *core.Prog, r *core.Report) {
 					parts := strings.SplitN(u, "|", 2)
 					key, hold := parts[0], parts[1]
 					moved := x.Get("rm") == hold && x.Get("add") == hold
-					same := false
+					inLong, notLong := false, false
 					for h := range x.St.Hist {
-						if strings.Contains(h, ".expriedTime") && strings.Contains(h, " == ") && !strings.Contains(h, " == 0") {
-							l := strings.SplitN(h, " == ", 2)
-							if strings.HasSuffix(l[0], ".expriedTime") && strings.HasSuffix(l[1], ".expriedTime") {
-								same = true
-							}
+						if h == "0 < "+hold+".longWaitIndex" || h == hold+".longWaitIndex != 0" {
+							inLong = true
+						}
+						if h == hold+".longWaitIndex <= 0" || h == hold+".longWaitIndex == 0" {
+							notLong = true
+						}
+					}
+					// "deadline unchanged": the path compared the deadline read before
+					// the update with the one after it (two different values of the
+					// same field), not a value with itself
+					same := false
+					for _, a := range x.St.Facts.All() {
+						if a.Op == "==" && a.L != a.R && core.Plain(a.L) == core.Plain(a.R) && strings.HasSuffix(core.Plain(a.L), ".expriedTime") {
+							same = true
 						}
 					}
 					switch {
+					case notLong && !inLong:
+						r.Hold(rule, key+" {not in the long table}", x.Pos(), "nothing to move")
+					case moved && x.Get("rmstale") == "1":
+						r.Violate(rule, key+" {moved from the wrong slot}", x.Pos(), "the entry is removed under the deadline read after the update (the new one): it stays filed under its old deadline and the sweeper ends the hold then, before the renewed period has passed", x.St.Trace)
 					case moved:
 						r.Hold(rule, key+" {moved}", x.Pos(), "entry re-keyed under the new deadline")
 					case same:
@@ -592,18 +606,41 @@ func c06R6(p *core.Prog, r *core.Report) {
 					x.Set("upd", "")
 					x.Set("rm", "")
 					x.Set("add", "")
+					x.Set("rmstale", "")
 				}
 				return
 			}
+			// order of deadline loads relative to the update, per path
+			step := fmt.Sprintf("%06d", len(x.St.Trace)*1000+x.E.Steps%1000)
+			if u, ok := x.Ins.(*ssa.UnOp); ok {
+				if fa, ok := u.X.(*ssa.FieldAddr); ok && core.FieldKeyOf(fa.X.Type(), fa.Field) == fk("server.Lock", "expriedTime") {
+					n, _ := strconv.Atoi(x.Get("clock"))
+					x.Set("clock", strconv.Itoa(n+1))
+					x.Set("ld:"+x.Fr.ID+":"+u.Name(), fmt.Sprintf("%06d", n+1))
+				}
+				return
+			}
+			_ = step
 			callee := core.StaticCallee(x.Ins)
 			switch {
 			case isMethod(callee, "LockManager", "UpdateLockedLock"):
 				hold := core.Plain(argCanon(x, x.Ins, 1))
-				if x.Passed("0 < " + hold + ".longWaitIndex") {
-					x.Set("upd", siteKey(p, x.Ins)+"|"+hold)
-				}
+				x.Set("upd", siteKey(p, x.Ins)+"|"+hold)
+				n, _ := strconv.Atoi(x.Get("clock"))
+				x.Set("clock", strconv.Itoa(n+1))
+				x.Set("updstep", fmt.Sprintf("%06d", n+1))
 			case isMethod(callee, "LockDB", "RemoveLongExpried"):
-				x.Set("rm", core.Plain(argCanon(x, x.Ins, 1)))
+				hold := core.Plain(argCanon(x, x.Ins, 1))
+				x.Set("rm", hold)
+				// the slot key must be the deadline as it was before the update: a
+				// register that outlived the update carries a snapshot mark
+				if args := core.CallArgs(x.Ins); len(args) >= 3 && x.Get("upd") != "" && core.Plain(argCanon(x, x.Ins, 2)) == hold+".expriedTime" {
+					if fid, name, ok := resolveLoad(x.Fr, args[2]); ok {
+						if ld := x.Get("ld:" + fid + ":" + name); ld != "" && x.Get("updstep") != "" && len(ld) >= len(x.Get("updstep")) && ld > x.Get("updstep") {
+							x.Set("rmstale", "1")
+						}
+					}
+				}
 			case isMethod(callee, "LockDB", "AddExpried"), isMethod(callee, "LockDB", "AddMillisecondExpried"):
 				x.Set("add", core.Plain(argCanon(x, x.Ins, 1)))
 			}
@@ -613,4 +650,36 @@ func c06R6(p *core.Prog, r *core.Report) {
 	if ex.Imprecise != "" {
 		r.Fail("C06/R6: %s", ex.Imprecise)
 	}
+}
+
+// resolveLoad follows a call argument back through the parameters of inlined
+// frames to the load instruction that produced it (frame id, register name).
+func resolveLoad(fr *core.Frame, v ssa.Value) (string, string, bool) {
+	for depth := 0; depth < 6 && fr != nil; depth++ {
+		switch t := v.(type) {
+		case *ssa.UnOp:
+			return fr.ID, t.Name(), true
+		case *ssa.Parameter:
+			if fr.Site == nil || fr.Parent == nil {
+				return "", "", false
+			}
+			idx := -1
+			for i, p := range fr.Fn.Params {
+				if p == t {
+					idx = i
+				}
+			}
+			args := fr.Site.Common().Args
+			if fr.Site.Common().IsInvoke() {
+				args = append([]ssa.Value{fr.Site.Common().Value}, args...)
+			}
+			if idx < 0 || idx >= len(args) {
+				return "", "", false
+			}
+			v, fr = args[idx], fr.Parent
+		default:
+			return "", "", false
+		}
+	}
+	return "", "", false
 }
